@@ -1141,20 +1141,20 @@ pub fn witness_docs() -> Vec<Planted> {
         p.desc = format!("witness:{}", desc);
         p
     };
-    out.push(pick(font_widths(), vec![6], "pending-D33 W [1 -1 800.0]"));
-    out.push(pick(font_widths(), vec![1], "pending-D33 W [1 []]"));
+    out.push(pick(font_widths(), vec![6], "regression D33 W [1 -1 800.0]"));
+    out.push(pick(font_widths(), vec![1], "regression D33 W [1 []]"));
     // crypt: /Length 0 is option index of "0" in the slot of /Length
     let c = crypt();
     let zero = c.slots[2].options.iter().position(|o| o == "0").unwrap();
     let mut ch = c.defaults();
     ch[2] = zero;
-    out.push(pick(c, ch, "pending-D18 key length 0"));
-    out.push(pick(runlength(), vec![], "pending-D13 truncated run"));
+    out.push(pick(c, ch, "regression D18 key length 0"));
+    out.push(pick(runlength(), vec![], "regression D13 truncated run"));
     let p = predictor();
     let neg = p.slots[1].options.iter().position(|o| o == "-1").unwrap();
     let mut ch = p.defaults();
     ch[1] = neg;
-    out.push(pick(p, ch, "pending-D14 predictor Colors -1"));
+    out.push(pick(p, ch, "regression D14 predictor Colors -1"));
     out
 }
 
